@@ -582,7 +582,12 @@ class UrwidImageScreen(urwid.raw_display.Screen):
         try:
             if canvas is not self._ti_screen_canv:
                 self._ti_screen_canv = canvas
-                self._ti_clear_images()
+                try:
+                    self._ti_clear_images()
+                except BaseException:
+                    # Stale images are yet to be cleared; retry upon the next redraw
+                    self._ti_screen_canv = None
+                    raise
             return super().draw_screen(maxres, canvas)
         finally:
             self.write(END_SYNCED_UPDATE)
